@@ -103,12 +103,13 @@ def r10_3(ck, F):
         ok = all(k.find_path([0], [d], avoid=[a["ready_bb"] for a in aw]) is None for d in drops) and bool(drops)
     ck.expect(ok, "connect_ext#credit-held", "credit captured by the response task and dropped only after the response",
               "the connect-request credit is released before the response arrives", b.loc(0))
-    tm = [bb for bb, i, rv in b.aggregates("chmux::client::ConnectError", "TooManyPendingConnectionRequests")]
+    TR = "chmux::client::ConnectRequestCrediter::try_request"
     ok = False
-    for bb in tm:
-        ce = conds(b, bb)
-        ok = ok or any(e[0] == "discr" and mir.calls_in(e, "chmux::client::ConnectRequestCrediter::try_request") and m == "None"
-                       for e, m in ce)
+    for sb, tb, m, e in outcome_edges(b, None, lambda x: bool(mir.calls_in(x, TR))):
+        if m == "None":
+            # match arm, or `try_request().ok_or(TooMany..)?`: the None outcome leaves with that error and cannot go on
+            ok = ok or (yields_error(b, [tb], "chmux::client::ConnectError", "TooManyPendingConnectionRequests", avoid=[sb]) and
+                        not (b.reach([tb], avoid=[sb]) & {x for x, i2, v2 in b.result_stores("Ok")}))
     ck.expect(ok, "connect_ext#too-many", "None from try_request -> TooManyPendingConnectionRequests",
               "missing credit without wait does not produce TooManyPendingConnectionRequests", b.loc(0))
 
